@@ -3,6 +3,8 @@ package gvc
 import (
 	"fmt"
 	"go/types"
+
+	"golang.org/x/tools/go/ssa"
 )
 
 // expandStructural turns structural directives into per-field clauses, generated from go/types so that
@@ -70,6 +72,10 @@ func (w *World) expandStructural() {
 			continue
 		}
 		recv := fn.Params[0]
+		if fc.Local != "" {
+			w.expandDecoded(fc, fn, c)
+			continue
+		}
 		c.Nilable[recv.Name()] = true
 		c.Nilable["result"] = true
 		st, ok := structOf(deref(recv.Type()))
@@ -146,6 +152,63 @@ func (vc *VC) iscopyKey(t types.Type) string {
 		vc.keyMetas[key] = keyMeta{Sort: "(Array Int (Array Int Bool))", Mono: true, Arity: 2, Ghost: true}
 	}
 	return key
+}
+
+// expandDecoded: "fields_decoded (*T).UnmarshalYAML local" - the decoder fills the local struct from the document and
+// takes every field the receiver type has too (same name, same type) over UNCHANGED: no default is filled in, nothing
+// is normalised, nothing is dropped. One clause per field, generated from go/types (a field added to both later is
+// covered from its first day); a field that is deliberately treated differently is listed with skipfield.
+//
+//	ensures result == nil ==> recv.F == local.F          -- detail "decoded:F"
+//
+// The clauses are evaluated at the returns where the local is in scope (the mapping form of the document).
+func (w *World) expandDecoded(fc *FieldsCopied, fn *ssa.Function, c *FuncContract) {
+	recv := fn.Params[0]
+	st, ok := structOf(deref(recv.Type()))
+	if !ok {
+		return
+	}
+	// the local: an Alloc of a struct type whose comment is the variable's name
+	var lt *types.Struct
+	for _, b := range fn.Blocks {
+		for _, ins := range b.Instrs {
+			if al, isAl := ins.(*ssa.Alloc); isAl && al.Comment == fc.Local {
+				if s, isS := structOf(deref(al.Type())); isS {
+					lt = s
+				}
+			}
+		}
+	}
+	if lt == nil {
+		// reported as a binding failure: the clause names a variable that is nowhere in scope
+		e := &EBinary{"==>", &EBinary{"==", &EIdent{"result"}, &ENil{}}, &EBinary{"==", &EField{&EIdent{recv.Name()}, st.Field(0).Name()}, &EField{&EIdent{fc.Local}, st.Field(0).Name()}}}
+		c.Ensures = append(c.Ensures, &Clause{Kind: "ensures", Expr: e, Text: e.String(), Tags: fc.Tags, File: fc.File, Line: fc.Line, Index: len(c.Ensures) + 1, Detail: "decoded:?"})
+		return
+	}
+	for i := 0; i < lt.NumFields(); i++ {
+		lf := lt.Field(i)
+		if _, skip := fc.Skip[lf.Name()]; skip {
+			continue
+		}
+		for j := 0; j < st.NumFields(); j++ {
+			rf := st.Field(j)
+			if rf.Name() != lf.Name() {
+				continue
+			}
+			if !types.Identical(rf.Type(), lf.Type()) {
+				// decoded as another type and converted afterwards: the conversion is where values change (an enum
+				// entry decoded as a number and printed again is no longer the text that was written)
+				e := &EBinary{"==>", &EBinary{"==", &EIdent{"result"}, &ENil{}}, &EBool{false}}
+				c.Ensures = append(c.Ensures, &Clause{Kind: "ensures", Expr: e, Text: fmt.Sprintf("%s.%s (%s) is decoded as %s", recv.Name(), rf.Name(), typeStr(rf.Type()), typeStr(lf.Type())), Tags: fc.Tags, File: fc.File, Line: fc.Line, Index: len(c.Ensures) + 1, Detail: "decoded-type:" + rf.Name()})
+				continue
+			}
+			if _, isStruct := rf.Type().Underlying().(*types.Struct); isStruct {
+				continue // struct-valued fields (Prompt, Output, Location): compared field by field where a clause needs it
+			}
+			e := &EBinary{"==>", &EBinary{"==", &EIdent{"result"}, &ENil{}}, &EBinary{"==", &EField{&EIdent{recv.Name()}, rf.Name()}, &EField{&EIdent{fc.Local}, lf.Name()}}}
+			c.Ensures = append(c.Ensures, &Clause{Kind: "ensures", Expr: e, Text: e.String(), Tags: fc.Tags, File: fc.File, Line: fc.Line, Index: len(c.Ensures) + 1, Detail: "decoded:" + rf.Name()})
+		}
+	}
 }
 
 var _ = fmt.Sprint
